@@ -6,6 +6,7 @@ PYTHONPATH.  Line protocol (one request per line on stdin, one answer line on st
   R <clauses>         start_resolution_algorithm on an arbitrary clause list (verdict, list, hint, build)
   V <clause> <clause> resolvable on frozensets
   S <clause> <int>    simplify_clause (clause part)
+  QS <N|C|L> <cf>     proof layer of one stage on an arbitrary well-shaped ConjForm tree
   Q <form>            proof layer: run every returned ProofThunk under StatefulInterpreter and compare
                       its conclusion literally with the advertised pattern
   O <form>            oracle only: truth-table classification + verdict of prove_tautology
@@ -355,8 +356,40 @@ def cmd_Q(arg):
     return f'{v} checked={n_checked} ' + ('OK' if not bad else 'BAD ' + ','.join(bad))
 
 
+def cmd_QS(arg):
+    """QS <N|C|L> <cf>: run one stage on an arbitrary ConjForm tree, execute its two proofs and compare
+    their conclusions with `input -> output` / `output -> input`"""
+    which, _, rest = arg.partition(' ')
+    term = parse_cf(rest.split())
+    before = T.conj_to_pattern(term)          # propag_neg mutates its argument
+    it = fresh_interpreter()
+    if which == 'N':
+        r, p1, p2 = TAUT.propag_neg(term)
+        after = T.conj_to_pattern(r)
+    elif which == 'C':
+        r, p1, p2 = TAUT.to_cnf(term)
+        after = T.conj_to_pattern(r)
+    else:
+        r, p1, p2 = TAUT.to_clauses(term)
+        after = T.clause_conjunctionto_pattern(r)
+    bad = []
+    for name, pf, exp in (('1', p1, Implies(before, after)), ('2', p2, Implies(after, before))):
+        try:
+            conc = pf(it).conclusion
+        except Timeout:
+            raise
+        except BaseException as e:  # noqa: BLE001
+            bad.append(f'pf{name}:raise:{type(e).__name__}')
+            continue
+        if not same(conc, exp) or not same(pf.conc, exp):
+            bad.append(f'pf{name}:conc')
+    return 'OK' if not bad else 'BAD ' + ','.join(bad)
+
+
 def handle(line):
     cmd, _, arg = line.partition(' ')
+    if cmd == 'QS':
+        return cmd_QS(arg)
     if cmd == 'P':
         return cmd_P(arg)
     if cmd in ('N', 'C', 'L'):
